@@ -24,6 +24,18 @@ framework, serializer and what was observed; `./check C18 --replay <file>` repro
   M6 _message_from_exception: forwarded traceback REPLACES the kwargs (`kwargs = {"traceback": tb}`)
         -> exit 1; caller:kwargs:class, caller:class:class, caller:kwargs:app
   H1 harmless: the four-way constructor call rewritten as `ecls(*(msg.args or []), **(msg.kwargs or {}))` -> exit 0, silent
+
+Repaired defects (found by this check, fixed in the code, entries `fixed` in known_findings.d/C18.jsonl; the model mirrors
+the repaired code and the theorems carry no exclusion any more). On a tree without the repair each is a VIOLATION again
+(checked with one patch applied at a time: exactly the keys of the other two remain):
+  reserved-kwarg-dropped-by-generic-application-error   _exception_from_message built the generic ApplicationError through
+        the public constructor, which takes callee / callee_authid / callee_authrole / forward_for / enc_algo as attributes
+  application-error-str-clobbers-traceback-kwarg         ApplicationError.__str__ rewrote (str) or dropped (non-str) a user
+        keyword argument named traceback; run by txaio.failure_message in the invocation error path
+  decorated-subclass-shares-base-wampuris (+ registration:…)   uri.error() used hasattr() and appended to the base's list
+A first version of the second repair kept the `":\n" + value` concatenation: with a non-str value str(exc) then raised
+on every call, and on asyncio txaio.failure_message (whose fallback formats the failure again) let the TypeError out of
+the errback -> no ERROR at all; caught by the thorough tier (`caller:lost:*`), the non-str shape is now in the fixed grid.
 """
 import hashlib
 import json
@@ -42,7 +54,7 @@ RESERVED = ["enc_algo", "callee", "callee_authid", "callee_authrole", "forward_f
 TRUSTED = [
     "Lean 4.33 kernel; axioms of every theorem audited to be within {propext, Classical.choice, Quot.sound}",
     "hand-written Lean model Abverif/Model/Errors.lean of define / _message_from_exception / _exception_from_message / "
-    "uri.error / ApplicationError.__init__ (registries as association lists, constructors as a 3-valued outcome)",
+    "uri.error / ApplicationError.__init__ and __str__ (registries as association lists, constructors as a 3-valued outcome)",
     "tie model<->code: differential run of two real ApplicationSessions per framework through vlib/wampx.Router with the "
     "real json/msgpack/cbor/ubjson serializers; the serializers themselves are trusted to be value-preserving on the "
     "generated payload domain (that is property C03)",
@@ -61,15 +73,19 @@ MANIFEST_ENTRY = {
             "wamp.error.runtime_error otherwise), list(exc.args) and the exception's kwargs (plus the traceback under key "
             "'traceback' when forwarding is on); the caller gets the class registered for that URI built from exactly those "
             "arguments or, when that class is unknown or cannot be constructed, a generic ApplicationError with the same URI "
-            "and args (never_lost); define() round-trips for explicit and decorated registration. The kwargs part is proved "
-            "for all keys except the five names ApplicationError.__init__ consumes (callee, callee_authid, callee_authrole, "
-            "forward_for, enc_algo): for those the full statement is false on the real code (known finding, replayed). "
+            "args and kwargs (never_lost); define() round-trips for explicit and decorated registration, a decorated subclass "
+            "of a decorated class included (the decorator touches the list of the decorated class only). All of this holds "
+            "for every keyword name, the five names the ApplicationError constructor takes as attributes (callee, "
+            "callee_authid, callee_authrole, forward_for, enc_algo) and a user keyword named traceback included, and on the "
+            "invocation error path, where str(exc) runs before the message is built. "
             "The model is tied to the code by running ~1000 (quick) / ~6000 (thorough) exception x payload x traceback cases "
             "per serializer and framework end-to-end through two real sessions and comparing the ERROR on the wire and the "
             "caller's failure with the Lean Spec and model.",
     "note": "Trusted: Lean kernel; the hand-written model mirrors the code (checked by the differential run only); the four "
-            "serializers; the in-memory router stub. Known findings: reserved kwargs keys dropped by the generic "
-            "ApplicationError; @error on a subclass of a decorated class appends to the base's _wampuris.",
+            "serializers; the in-memory router stub. Three defects found by this check were repaired in the code (reserved "
+            "kwargs dropped by the generic ApplicationError, str(exc) rewriting a user traceback kwarg, @error on a subclass "
+            "appending to the list of its decorated base); their inputs stay in the generated cases and are violations again "
+            "if the behaviour returns.",
 }
 
 # --------------------------------------------------------------------------- the class zoo
@@ -124,6 +140,7 @@ KWARGS = [
     {"traceback": "user-tb"},
     {"enc_algo": "x", "code": 7},
     {"forward_for": [1], "callee_authid": "a", "callee_authrole": "b"},
+    {"traceback": 7, "code": 1},     # a user "traceback" that is no string: str(exc) must neither drop it nor fail
 ]
 
 
@@ -327,7 +344,7 @@ def run(ctx):
     res.rule = ("case = (exception source: ApplicationError with 3 URIs / 15 test classes covering decorated, explicitly "
                 "defined, undefined, callee-only, caller-only, ApplicationError subclass, decorated subclass of a decorated "
                 "class; caller-side constructor kinds any/argsonly/noargs/arity2/kwonly/raising/falsy) x 5 args shapes x "
-                "9 kwargs shapes (no attribute, empty, plain, nested, reserved names, user 'traceback') x traceback "
+                "10 kwargs shapes (no attribute, empty, plain, nested, reserved names, user 'traceback' str / non-str) x traceback "
                 "forwarding on/off [quick: half of the grid; thorough: full grid + 1500 random payloads], each run on "
                 "{json,msgpack,cbor,ubjson} x {twisted,asyncio} through two real sessions; plus registration sequences "
                 "(decorator/define on class hierarchies, fixed + random). non-trivial = distinct (source, args, kwargs, tb)")
@@ -386,8 +403,8 @@ def run(ctx):
     for case in cases:
         ex = exc_token(src_view(case))
         tb = "TB" if case["tb"] else "~"
-        lines.append(f"err.rt {defs_tokens(z, 'callee', eff)} {defs_tokens(z, 'caller', eff)} {ct} {ex} {tb} {tok('...')}")
-        lines.append(f"err.rt {defs_tokens(z, 'callee', intended)} {defs_tokens(z, 'caller', intended)} {ct} {ex} {tb} {tok('...')}")
+        lines.append(f"err.rt {defs_tokens(z, 'callee', eff)} {defs_tokens(z, 'caller', eff)} {ct} {ex} {tb}")
+        lines.append(f"err.rt {defs_tokens(z, 'callee', intended)} {defs_tokens(z, 'caller', intended)} {ct} {ex} {tb}")
     answers = ctx.driver.run(lines)
     res.count("driver_lines", len(lines))
 
@@ -439,17 +456,11 @@ def run(ctx):
                 key = classify(case, o_msg, o_rex, s_msg, s_rex, diffs_spec)
                 violation(key, f"{fw}/{ser}: src={case['src']} args={len(case['args'])} kwargs={sorted(case['kwargs']) if case['kwargs'] else case['kwargs']} "
                                f"tb={case['tb']}: observed {o_msg} / {o_rex}; the statement prescribes {s_msg} / {s_rex}", rep)
-            if diffs_model:
-                if not diffs_spec:
-                    res.correspondence_breaks.append({"stream": "roundtrip", "fw": fw, "serializer": ser, "case": case,
-                                                      "differs": diffs_model, "observed": [o_msg, o_rex], "model": [m_msg, m_rex]})
-                elif not classify(case, o_msg, o_rex, s_msg, s_rex, diffs_spec).startswith(("reserved-kwarg", "decorated-subclass", "application-error-str")):
-                    pass  # already reported as a violation with a concrete input
-                else:
-                    # a known finding must be reproduced by the model exactly
-                    res.correspondence_breaks.append({"stream": "roundtrip(known-finding shape)", "fw": fw, "serializer": ser,
-                                                      "case": case, "differs": diffs_model, "observed": [o_msg, o_rex],
-                                                      "model": [m_msg, m_rex]})
+            if diffs_model and not diffs_spec:
+                # (a difference from the model that is also a difference from the Spec is reported above as a
+                # violation with the concrete input)
+                res.correspondence_breaks.append({"stream": "roundtrip", "fw": fw, "serializer": ser, "case": case,
+                                                  "differs": diffs_model, "observed": [o_msg, o_rex], "model": [m_msg, m_rex]})
             res.traces_validated += 1
         # registration stream
         if o["reg"]:
